@@ -6,6 +6,7 @@ import fam_mapped
 import fam_dyn
 import fam_ef
 import fam_compressed
+import fam_plm
 
 
 class Unit:
@@ -124,10 +125,7 @@ U('dyn_find', fam_dyn, 'Dyn_find', ['C05', 'C16', 'C17'], inline=['Item_deleted'
 U('dyn_ceil_log2', fam_dyn, 'Dyn_ceil_log2', ['C15', 'C17'], decls=['dyn_ghost'], insts=DYN_Q, spec=('dyn.spec',))
 U('dyn_max_size', fam_dyn, 'Dyn_max_size', ['C15', 'C17'], inline=['Dyn_ceil_log2'], decls=['dyn_ghost'], insts=DYN_Q, spec=('dyn.spec',))
 
-U('dyn_pairwise_merge', fam_dyn, 'Dyn_pairwise_merge', ['C15', 'C05', 'C17'], inline=['Dyn_level', 'Dyn_pgm', 'Dyn_has_pgm', 'Dyn_max_fully_allocated_level'],
-  assumed=['Dyn_merge', 'pgmv_copy_Item', 'PGMType_build'], decls=['dyn_ghost', 'dyn_merge_ghost'], lemmas=['lemma_merge_fits'],
-  insts=DYN_Q, thorough_insts=DYN_ALL, spec=('dyn.spec',), timeout=1500, partition=16, mem_gb=12, defines=['NLEV=4', 'PGMV_UNWIND'], unwind=7, mode='B:at most 4 levels above the buffer (loop unwound, unwinding assertions on)',
-  assumptions=[DYN_NOTE, 'BOUNDED: levels enumerated up to 4 above the buffer (NLEV=4); not counted as proved', 'size accounting of the merge cascade (lemma_merge_fits) is established by insert; checked natively by the bounded link'])
+# dyn_pairwise_merge: contract kept in spec/dyn.spec, unit not registered: did not finish within 30 min / 7 GB per process even with 4 enumerated levels (DESIGN 5/C15)
 
 
 # ---------------------------------------------------------------------------------------------------
@@ -166,3 +164,14 @@ for fn, inl in (('CompressedLevel_size', []), ('CompressedLevel_get_intercept', 
     U('compressed_' + fn[len('CompressedLevel_'):], fam_compressed, fn, ['C08', 'C17'], inline=inl, decls=['compressed_ghost'], lemmas=['IntVector_get', 'Select1_call'],
       insts=CP_Q, spec=('compressed.spec',), defines=['PGMV_F2I_STRICT'], drop_checks=['--conversion-check'] if fn == 'CompressedLevel_call' else [],
       assumptions=['sdsl int_vector / select_1 are replaced by assumed contracts [A]', 'WF_compressed (slopes_map cells index the slopes table, select defined for 1..size) is a precondition'])
+
+
+# ---------------------------------------------------------------------------------------------------
+# OptimalPiecewiseLinearModel: control part + guards
+PLM_Q = [fam_plm.pinst('uint64_t'), fam_plm.pinst('int32_t', 'int32_t')]
+U('oplm_ctor', fam_plm, 'OPLM_ctor', ['C20', 'C17'], decls=['plm_ghost'], insts=PLM_Q, spec=('plm.spec',))
+U('oplm_reset', fam_plm, 'OPLM_reset', ['C03', 'C17'], decls=['plm_ghost'], insts=PLM_Q[:1], spec=('plm.spec',))
+U('oplm_add_point', fam_plm, 'OPLM_add_point', ['C20', 'C03', 'C17'], assumed=['Slope_lt', 'Slope_gt', 'OPLM_cross'], decls=['plm_ghost'], insts=PLM_Q, spec=('plm.spec',),
+  defines=['PGMV_STUB_SLOPE_CMP'], timeout=1200, partition=8,
+  assumptions=['Slope comparisons / cross products are replaced by unconstrained stubs: the control and memory-safety obligations hold for every outcome of the geometry',
+               'geo-1/geo-2 (epsilon-accuracy and maximality of the hull) are checked only by the bounded native link'])
